@@ -780,3 +780,74 @@ func c14_7(c *core.Ctx, p *core.Prog) {
 		c.Check(has && !leak, "defer|"+name, p.Pos(fn.Pos()), core.FuncName(fn), "the observation is deferred before decoding starts", name+" does not defer the in-use observation before decoding: the instrument misses the memory retained (or released) by this batch")
 	}
 }
+
+func init() {
+	register("C14", &core.Rule{ID: "C14.8", Title: "a registered stream keeps its reader (and thus its sticky error)", Mod: core.ModRoot, Floor: 2, Run: c14_8})
+	register("C07", &core.Rule{ID: "C07.9", Title: "a registered stream keeps its reader: it is released only together with its map entry or in Close", Mod: core.ModRoot, Floor: 2, Run: c14_8})
+}
+
+// c14_8: the IPC reader of a registered stream consumer is assigned only from
+// ipc.NewReader and released only where its map entry is deleted (schema
+// change) or in Close. A reader that failed (memory limit, damaged payload)
+// keeps its error; resetting it would make the next payload of the same
+// sub-stream start a fresh reader in the middle of an IPC stream and fail with
+// an unrelated error (or decode against missing dictionaries).
+func c14_8(c *core.Ctx, p *core.Prog) {
+	pk := p.Pkg(pkgArrowRecord)
+	if pk == nil {
+		c.Undecided("pkg", "?", "", "arrow_record not loaded")
+		return
+	}
+	tn, _ := pk.Types.Scope().Lookup("streamConsumer").(*types.TypeName)
+	if tn == nil {
+		c.Undecided("type", "?", "", "streamConsumer not found")
+		return
+	}
+	st := tn.Type().Underlying().(*types.Struct)
+	var rdF *types.Var
+	for k := 0; k < st.NumFields(); k++ {
+		if core.TypePkgPath(st.Field(k).Type()) == arrowIPC {
+			rdF = st.Field(k)
+		}
+	}
+	if rdF == nil {
+		c.Undecided("field", "?", "", "reader field not found")
+		return
+	}
+	nS, nR := 0, 0
+	for _, fn := range arrowRecordFuncs(p) {
+		core.EachInstr(fn, func(i ssa.Instruction) {
+			if s, ok := storesTo(i, rdF); ok {
+				if _, lit := s.Addr.(*ssa.FieldAddr).X.(*ssa.Alloc); lit {
+					return
+				}
+				nS++
+				fromNew := false
+				if ex, ok := s.Val.(*ssa.Extract); ok {
+					if cl, ok := ex.Tuple.(*ssa.Call); ok && core.IsPkgFunc(core.CalleeObj(cl), arrowIPC, "NewReader") {
+						fromNew = true
+					}
+				}
+				c.Check(fromNew, fmt.Sprintf("store#%d@%s", nS, core.FuncName(fn)), p.Pos(s.Pos()), core.FuncName(fn), "the reader field is assigned from ipc.NewReader",
+					"the reader of a registered stream consumer is overwritten (e.g. reset to nil after an error): the next payload of that sub-stream starts a fresh reader in the middle of the IPC stream and is refused with an unrelated error instead of the sticky (memory-limit) error")
+			}
+			cl, ok := i.(*ssa.Call)
+			if !ok || !core.IsMethodOf(core.CalleeObj(cl), arrowIPC, "Reader", "Release") || !isFieldLoad(cl.Call.Args[0], rdF) {
+				return
+			}
+			nR++
+			// allowed: in Close, or followed on every path by delete() of the entry before the loop continues / function returns
+			inClose := fn.Name() == "Close"
+			withDelete := core.MustPassBetween(fn, cl, nil, func(j ssa.Instruction) bool {
+				d, ok := j.(*ssa.Call)
+				if !ok {
+					return false
+				}
+				b, ok := d.Call.Value.(*ssa.Builtin)
+				return ok && b.Name() == "delete"
+			})
+			c.Check(inClose || withDelete, fmt.Sprintf("release#%d@%s", nR, core.FuncName(fn)), p.Pos(cl.Pos()), core.FuncName(fn), "the reader is released together with its map entry (or in Close)",
+				"a stream's reader is released while its entry stays registered: later payloads of the sub-stream use a released reader or restart the IPC stream")
+		})
+	}
+}
